@@ -107,6 +107,13 @@ def glue(spec, r):
     body += "            m.expect_eq(\"prop\", \"get_str\", &subj, &strum::EnumProperty::get_str(e, k), &es[*idx][ki], true);\n"
     body += "            m.expect_eq(\"prop\", \"get_int\", &subj, &strum::EnumProperty::get_int(e, k), &ei[*idx][ki], true);\n"
     body += "            m.expect_eq(\"prop\", \"get_bool\", &subj, &strum::EnumProperty::get_bool(e, k), &eb[*idx][ki], true);\n"
+    body += "            { let dyn__ref: &dyn strum::EnumProperty = e;\n"
+    body += "              m.expect_eq(\"prop\", \"get_str via &dyn\", &subj, &dyn__ref.get_str(k), &es[*idx][ki], true);\n"
+    body += "              m.expect_eq(\"prop\", \"get_int via &dyn\", &subj, &dyn__ref.get_int(k), &ei[*idx][ki], true);\n"
+    body += "              m.expect_eq(\"prop\", \"get_bool via &dyn\", &subj, &dyn__ref.get_bool(k), &eb[*idx][ki], true); }\n"
+    body += "            { use strum::EnumProperty as _; let dbl__ref = &e;\n"
+    body += "              m.expect_eq(\"prop\", \"get_str via &&E\", &subj, &dbl__ref.get_str(k), &es[*idx][ki], true);\n"
+    body += "              m.expect_eq(\"prop\", \"get_int via &&E\", &subj, &dbl__ref.get_int(k), &ei[*idx][ki], true); }\n"
     body += "        }\n    }\n}\n"
     return body
 
